@@ -1181,6 +1181,31 @@ fn sort_reference(seed: u64) -> serde_json::Value {
             }
         }
     }
+    // keys wider than a machine word (bit strings of 65 / 100 / 130 bits; rows that differ only in their LEADING bits or only in their LAST bit), plaintext sort
+    for b in [65u64, 100, 130] {
+        let n = 7u64;
+        let types = vec![array_type(vec![n, b], BIT), array_type(vec![n], UINT64)];
+        let tt = types.clone();
+        let c = match simple_context(|g| { let key = g.input(tt[0].clone())?; let id = g.input(tt[1].clone())?;
+            let table = g.create_named_tuple(vec![("key".to_owned(), key), ("id".to_owned(), id)])?; let sorted = table.sort("key".to_owned())?;
+            g.create_tuple(vec![sorted.named_tuple_get("key".to_owned())?, sorted.named_tuple_get("id".to_owned())?]) }) { Ok(c) => c, Err(e) => return json!({"found": true, "routine": "sort_reference", "property": "C18", "input": {"rows": n, "key_bits": b}, "observed": format!("graph construction error: {}", e)}) };
+        tried += 1;
+        let low: Vec<u64> = (0..b - 3).map(|_| rng.next() & 1).collect();
+        let heads: [[u64; 3]; 7] = [[1, 0, 1], [0, 1, 1], [1, 1, 0], [0, 0, 1], [1, 0, 1], [0, 1, 0], [0, 0, 1]];
+        let rows: Vec<Vec<u64>> = (0..n as usize).map(|i| { let mut r = heads[i].to_vec(); r.extend(low.iter().cloned()); if i == 4 { let l = r.len(); r[l - 1] ^= 1; } r }).collect();
+        let key_bits: Vec<u64> = rows.iter().flatten().cloned().collect();
+        let ids: Vec<u64> = (0..n).map(|i| 100 + i).collect();
+        let mut ord: Vec<usize> = vec![]; for i in 0..n as usize { let mut pos = ord.len(); while pos > 0 && rows[ord[pos - 1]] > rows[i] { pos -= 1; } ord.insert(pos, i); }
+        let want: Vec<u64> = ord.iter().map(|&i| ids[i]).collect();
+        let inputs = vec![Value::from_flattened_array(&key_bits, BIT).unwrap(), Value::from_flattened_array(&ids, UINT64).unwrap()];
+        let r = catch_unwind(AssertUnwindSafe(|| random_evaluate(c.get_main_graph().unwrap(), inputs.clone()).and_then(|v| v.to_vector()?[1].to_flattened_array_u64(types[1].clone()))));
+        let got = match r { Ok(Ok(t)) => t, Ok(Err(e)) => return json!({"found": true, "routine": "sort_reference", "property": "C18", "input": {"rows": n, "key_bits": b}, "observed": format!("plaintext sort: error: {}", e)}),
+            Err(_) => return json!({"found": true, "routine": "sort_reference", "property": "C18", "input": {"rows": n, "key_bits": b}, "observed": "plaintext sort: panic"}) };
+        if got != want {
+            return json!({"found": true, "routine": "sort_reference", "property": "C18", "input": {"rows": n, "key_bits": b, "leading_bits_of_rows": heads.iter().map(|h| h.to_vec()).collect::<Vec<_>>(), "ids": ids},
+                "expected": {"ids (lexicographic order of the whole bit strings, ties in input order)": want}, "observed": {"ids": got}, "what": "Sort by a bit-string key wider than 64 bits, SimpleEvaluator vs. stable insertion by lexicographic comparison"});
+        }
+    }
     json!({"found": false, "routine": "sort_reference", "tried": tried})
 }
 
